@@ -82,7 +82,8 @@ class Worker:
         """Returns (result dict | None, reason)."""
         if self.proc is None or self.proc.poll() is not None:
             self.start()
-        timer = threading.Timer(timeout, self._kill)
+        self._fired = False
+        timer = threading.Timer(timeout, self._kill_timeout)
         timer.start()
         try:
             self.proc.stdin.write((dumps(spec) + "\n").encode())
@@ -91,8 +92,8 @@ class Worker:
         except (BrokenPipeError, OSError):
             line = b""
         finally:
-            fired = not timer.is_alive()
             timer.cancel()
+            fired = self._fired
         if not line:
             rc = self.proc.poll()
             self.close()
@@ -102,6 +103,10 @@ class Worker:
         except Exception as exc:  # corrupted protocol
             self.close()
             return None, f"bad_reply {exc!r}"
+
+    def _kill_timeout(self):
+        self._fired = True
+        self._kill()
 
     def _kill(self):
         try:
@@ -216,6 +221,13 @@ def main(argv=None):
 
     case_timeout = getattr(mod, "CASE_TIMEOUT", {"quick": 300, "thorough": 900})[tier]
     results = run_cases(prop, cases, rundir, case_timeout)
+    # a worker death or watchdog firing is retried once, alone (a loaded machine must not decide a verdict)
+    retry = [i for i, (_, r, _) in enumerate(results) if r is None]
+    if retry and len(retry) <= max(4, len(cases) // 10):
+        for i in retry:
+            again = run_cases(prop, [dict(cases[i], timeout=2 * cases[i].get("timeout", case_timeout))], rundir, 2 * case_timeout, nworkers=1)
+            if again[0][1] is not None:
+                results[i] = again[0]
 
     # optional cross-case analysis (differential properties)
     extra = []
@@ -240,6 +252,11 @@ def main(argv=None):
     for spec, res, reason in results:
         if res is None:
             inconclusive.append({"case": spec["id"], "reason": reason})
+            continue
+        if res.get("status") == "harness_error" and "Factor is exactly singular" in str(res.get("error")):
+            # SuperLU refused the singular Poisson matrix of this mesh: a refusal class (see DESIGN 2b)
+            counters["refused_singular_poisson_factorisation"] = counters.get("refused_singular_poisson_factorisation", 0) + 1
+            classes["refused"] = classes.get("refused", 0) + 1
             continue
         if res.get("status") == "harness_error":
             inconclusive.append({"case": spec["id"], "reason": "harness_error: ..." + str(res.get("error"))[-700:].replace("\n", " | ")})
